@@ -2571,3 +2571,16 @@ M("C16", "around/flushed-copy-keeps-annotators", CONT,
 B("C04", "around/kernel-compiled-with-cache", DIS,
   "dissimilarity_dec = nb.njit(nb.float32(nb.float32[:], nb.float32[:]))",
   "dissimilarity_dec = nb.njit(nb.float32(nb.float32[:], nb.float32[:]), cache=True)", "on-disk cache of the compiled kernel: same semantics")
+
+# patch-based hand probes (selfval/hand_patches/): edits that touch several files consistently
+import os as _os
+_HP = _os.path.join(_os.path.dirname(_os.path.abspath(__file__)), "hand_patches")
+VARIANTS.append(dict(prop="C07", id="around/unit-positions-in-8-bit-integers", kind="M", rule="R-C07-", patch=_os.path.join(_HP, "broken-index-int8.diff"),
+                     note="every int16 on the path of the unit positions narrowed to int8 (signatures included): positions wrap at 128"))
+VARIANTS.append(dict(prop="C01", id="around/unit-positions-in-8-bit-integers-c01", kind="M", rule="R-C01-5", patch=_os.path.join(_HP, "broken-index-int8.diff")))
+for _p in ("C01", "C02", "C03", "C07", "C09", "C11"):
+    VARIANTS.append(dict(prop=_p, id="around/unit-positions-in-32-bit-integers", kind="B", rule="", patch=_os.path.join(_HP, "benign-index-int32.diff"),
+                         note="widening is behaviour-preserving"))
+for _p in ("C04", "C09", "C12"):
+    VARIANTS.append(dict(prop=_p, id="around/kernels-compiled-with-fastmath", kind="M", rule="", expect_code=2, patch=_os.path.join(_HP, "refused-fastmath.diff"),
+                         note="the assumption 'Python arithmetic in compiled kernels' is given up: refused, never a silent pass"))
